@@ -82,6 +82,24 @@ CHECKS = {
         text="The grammar is finite and enumerated completely (2790 requests per run). Requests that match no registered route are answered by the framework (plain 404 / redirect) and are counted but not judged. Byte-level HTTP malformation is net/http's.",
         design="§3 C16",
     ),
+    "C14": dict(
+        engine="domwalk", category="exploration",
+        technique="bounded-exhaustive enumeration: every message shape of the 16 kinds (element counts 0,1,2,limit and limit+1 refused; each scalar over its boundary alphabet) x 5 negotiated protocol versions through WriteMessage/ReadMessage (round trip + byte-identical re-encoding); for every seed frame with <=2 elements every single-bit flip, every truncation, 8 length-field values, every payload bit flip / truncation / varint splice at every position with recomputed checksum, splices between every ordered pair of kinds at every cut, wrong magic, bad checksum, unknown and invalid-UTF-8 command; oracle: no panic, bounded reads, allocation <= payload limit + slack, the four rejection classes return errors; a decoder that kills the process is caught through a per-case progress file",
+        text="Complete within the stated shape and mutation alphabets (about 330 000 decodes per run); raw random bytes and multi-fault mutations are sampling and are not done. The allocation bound is checked under wire.SetLimits(1 MB).",
+        design="§3 C14",
+    ),
+    "C19": dict(
+        engine="domwalk", category="exploration",
+        technique="complete enumeration of the 32-bit input domain against an independent big.Int reference: thorough = all 2^32 compact encodings (CompactToBig, CalculateWork) and all 2^32 n (FastLog2Floor), sharded over 16 processes; quick = all 256 exponents x both signs x a 70-value mantissa lattice, all n < 2^20 and all 2^k, 2^k+-1, plus monotonicity on the sorted distinct targets",
+        text="Thorough tier is a complete enumeration (proof by exhaustion of the domain); quick tier covers every exponent/sign class and the mantissa boundaries.",
+        design="§3 C19",
+    ),
+    "C20": dict(
+        engine="domwalk", category="exploration",
+        technique="complete enumeration: every leaf key of config.AppConfig (found by reflection at run time) x {no source, env, file, env+file, env+file swapped} resolved through SetDefaults + cli.LoadFlags(-C file) + Load with all other keys observed; complete product of database sections (4 engines x sqlite path x 2^4 postgres fields x prepared_db x prepared file state) through Validate",
+        text="The space is finite and enumerated completely in both tiers (34 keys x 5 source patterns; 768 database sections). Keys whose values are interpreted while loading (log level/format, engine, network) use valid alternatives.",
+        design="§3 C20",
+    ),
 }
 
 NOT_YET = "check not built yet in this session (work in progress; see DESIGN.md §7 for the order of work)"
@@ -139,6 +157,8 @@ ENGINES = [
      "kind_free_text": "crash-point / storage-fault enumeration at the repository write boundary with restart (database.Init) and redelivery; import/export corruption matrix"},
     {"name": "apiwalk", "path": "harness/apiwalk", "serves_properties": ["C09", "C10", "C12", "C16"],
      "kind_free_text": "BFS over operation sequences and complete request products on the production gin engine / websocket connect handler over SQL-backed services"},
+    {"name": "domwalk", "path": "harness/domwalk", "serves_properties": ["C14", "C19", "C20"],
+     "kind_free_text": "complete enumeration of finite input domains (wire frames and their single-fault mutations, 32-bit arithmetic domain, configuration keys x sources) against independent references"},
     {"name": "storewalk", "path": "harness/storewalk", "serves_properties": ["C01", "C02", "C03", "C04", "C08", "C13"],
      "kind_free_text": "explicit-state DFS over reachable header stores; successor = file copy of the parent's SQLite store + one real Chains.Add"},
 ]
